@@ -175,10 +175,19 @@ class Float(Spec):
 def _fp_to_float(v):
     import struct
 
-    if z3.is_fp_value(v) or z3.is_fp(v):
-        v = z3.simplify(z3.fpToIEEEBV(v))
-    bits = v.as_long()
-    return struct.unpack(">d", bits.to_bytes(8, "big"))[0]
+    v = z3.simplify(v)
+    if z3.is_fp_value(v):
+        if v.isNaN():
+            return float("nan")
+        if v.isInf():
+            return float("-inf") if v.isNegative() else float("inf")
+        if v.isZero():
+            return -0.0 if v.isNegative() else 0.0
+    bv = z3.simplify(z3.fpToIEEEBV(v))
+    if not z3.is_bv_value(bv):
+        r = z3.simplify(z3.fpToReal(v))
+        return float(r.numerator_as_long()) / float(r.denominator_as_long())
+    return struct.unpack(">d", bv.as_long().to_bytes(8, "big"))[0]
 
 
 class Bytes(Spec):
